@@ -436,6 +436,28 @@ def rule_inner_limit(program, ctx, prop=P, rid="C12.inner"):
         ctx.ok(rid, fn, "no LIMIT inside the WHERE fragments")
 
 
+def rule_once(program, ctx, prop=P, rid="C12.once"):
+    ctx.rule(
+        rid,
+        "SQL: the streaming SELECT of a stored query is executed once per run_query call - the `yield` of DBStorage.run_query is not inside a retry loop around "
+        "`conn.stream(query)`: rows already yielded would be sent again, more than `limit` events before EOSE",
+        floor=1,
+    )
+    fn = program.func("nostr_relay.storage.db:DBStorage.run_query")
+    ys = [y for y in walk_no_nested(fn) if isinstance(y, (ast.Yield, ast.YieldFrom))]
+    if not ys:
+        ctx.bad(finding_func(prop, rid, fn, "DBStorage.run_query no longer yields rows", text="def run_query(...) :: yield"))
+    for y in ys:
+        loops = [a for a in ancestors(y) if isinstance(a, (ast.For, ast.While, ast.AsyncFor))]
+        outer = [l for l in loops if not (isinstance(l, ast.AsyncFor) and "result" in ast.unparse(l.iter))]
+        streams = [a for a in ancestors(y) if isinstance(a, ast.AsyncWith) and "stream(" in ast.unparse(a.items[0].context_expr)]
+        if outer and any(any(l is x for x in ancestors(s_)) for l in outer for s_ in streams):
+            ctx.bad(finding_at(prop, rid, outer[0], "the streaming SELECT sits inside a loop: after an error part-way through the result the statement is executed again and the rows "
+                               "already sent are sent a second time (more events than the limit, duplicates)"))
+        else:
+            ctx.ok(rid, y, "rows are yielded from a single execution of the statement")
+
+
 def run(program, ctx):
     from ..lib import rule_awaited
 
@@ -446,6 +468,10 @@ def run(program, ctx):
     rule_cutoff(program, ctx)
     rule_import(program, ctx)
     rule_inner_limit(program, ctx)
+    from . import c02
+
+    c02.rule_skips(program, ctx, prop=P, rid="C12.plan")
+    rule_once(program, ctx)
     ctx.not_decided += [
         "that the reverse cursor walk yields descending created_at for one match value (scanner arithmetic)",
         "for LMDB plans with several match values the per-value runs are concatenated, not merged, before the cut-off (part of the known finding on MultiIndex/plan order)",
